@@ -1027,17 +1027,21 @@ class WhileLoopPlugin(PrimitiveLeafPlugin):
         for const_val, const_out in zip(body_const_vals, const_outputs):
             if getattr(const_val, "type", None) is not None:
                 const_out.type = const_val.type
-            dims = getattr(getattr(const_val, "shape", IRShape(())), "dims", None)
-            tuple_dims = tuple(dims) if dims is not None else tuple()
-            _stamp_type_and_shape(const_out, tuple_dims)
+            # An unknown shape must stay unknown: stamping () would declare the
+            # pass-through a scalar whatever the constant's runtime shape is.
+            dims = getattr(getattr(const_val, "shape", None), "dims", None)
+            if dims is not None:
+                _stamp_type_and_shape(const_out, tuple(dims))
             _ensure_value_metadata(ctx, const_out)
 
         for const_val, const_out in zip(cond_const_vals, cond_const_outputs):
             if getattr(const_val, "type", None) is not None:
                 const_out.type = const_val.type
-            dims = getattr(getattr(const_val, "shape", IRShape(())), "dims", None)
-            tuple_dims = tuple(dims) if dims is not None else tuple()
-            _stamp_type_and_shape(const_out, tuple_dims)
+            # An unknown shape must stay unknown: stamping () would declare the
+            # pass-through a scalar whatever the constant's runtime shape is.
+            dims = getattr(getattr(const_val, "shape", None), "dims", None)
+            if dims is not None:
+                _stamp_type_and_shape(const_out, tuple(dims))
             _ensure_value_metadata(ctx, const_out)
 
         for var, val in zip(eqn.outvars, value_outputs):
